@@ -14,14 +14,22 @@ from .workloads import BudgetExceeded
 class VirtualClock:
     """Replaces nautilus.sampler.time: advances one unit per reading."""
 
-    def __init__(self):
+    def __init__(self, spin_limit=200000):
         self.t = 0
         self.readings = []
+        self.since_progress = 0
+        self.spin_limit = spin_limit
 
     def __call__(self):
         v = self.t
         self.t += 1
         self.readings.append(v)
+        # run() reads the clock once per loop iteration: a broken tree can make that loop spin without ever starting
+        # a batch (e.g. a nan effective sample size satisfies no branch); turn that into an exception the driver
+        # understands instead of a watchdog kill that loses what the monitors already saw
+        self.since_progress += 1
+        if self.since_progress > self.spin_limit:
+            raise BudgetExceeded('run() read the clock %d times without starting a batch (spinning)' % self.since_progress)
         return float(v)
 
 
@@ -101,6 +109,8 @@ class Hooks:
         o_ev = S.evaluate_likelihood
 
         def evaluate_likelihood(self, points):
+            if hooks.clock is not None:
+                hooks.clock.since_progress = 0
             hooks.emit('before_eval', self, points)
             n0 = self.n_like
             r = o_ev(self, points)
